@@ -105,6 +105,14 @@ def build(case):
                 sl[order.index(d)] = i % sizes[d]
                 y[tuple(sl)] = np.nan
     dv = {"y": (order, y)}
+    if case.get("err_var"):
+        # an error estimate with missing values of its own
+        re_ = random.Random(case["seed"] + 5)
+        e = np.array([re_.uniform(0.1, 0.5) for _ in range(y.size)]
+                     ).reshape(shape)
+        me_ = np.array([re_.random() < 0.3 for _ in range(y.size)]
+                       ).reshape(shape)
+        dv["yerr"] = (order, np.where(me_, np.nan, e))
     if case.get("x_is_var"):
         # x varies with one other dimension and the link dimension 'a'
         d0 = dims[0]
@@ -221,6 +229,9 @@ def check_lines(x, case, ds):
         kw["join_across_missing"] = True
     if case.get("palette"):
         kw["palette"] = case["palette"]
+    if case.get("err_var") and not agg:
+        kw["err"] = "yerr"
+        kw["err_style"] = "band"      # (bars would add cap lines)
     xname = "a"
     if case.get("x_is_var"):
         xname = "xv"
@@ -622,6 +633,8 @@ def strategy(draw):
         and case["rest"] == "iterate"
     if case["rest"] == "iterate":
         case["p_inf"] = draw(st.sampled_from([0.0, 0.0, 0.2]))
+    case["err_var"] = case["rest"] == "iterate" and \
+        draw(st.sampled_from([False, False, True]))
     case["user_axs"] = draw(st.sampled_from([0, 1, 2])) \
         if ("row" in case["map"] or "col" in case["map"]) else 0
     return case
